@@ -29,7 +29,7 @@ DRIVERS = ["x10"]
 RULE = ("synthetic disparity maps, values multiples of 1/4 in [-8, 8]; shapes from {3,7,49,50,51,99,100,101,103,205} x "
         "{3,5,52,101} (either orientation); invalid pixels (random flag combinations, ratio 0/20/60/100 %, rectangular "
         "blobs covering whole windows, a few NaN disparities on flag-valid pixels); median: filter_size 1/3/5/7 including "
-        "images smaller than the window (ValueError branch); bilateral: sigma_space in {0.25,0.4,0.5,1,1.5,2,6}, "
+        "images smaller than the window (returned untouched since the fix: commit); bilateral: sigma_space in {0.25,0.4,0.5,1,1.5,2,6}, "
         "sigma_color in {0.5,1,2,4}; median_for_intervals on two bound bands with their own NaN, with and without "
         "regularisation (interval_regularization observed by wrapping the module attribute); a case is non-trivial when "
         "the map has an interior valid pixel whose window holds an invalid pixel or >= 2 distinct valid values; distinct "
@@ -44,8 +44,11 @@ ASSUMES = [
     "rounding is bounded by the bridging tolerance 2^-18, not proved",
     "median_for_intervals with regularisation: interval_regularization is an oracle (its outputs are observed and handed "
     "to the model); the property only constrains the validity mask (bit 11) there",
-    "an image with fewer than filter_size - 1 rows or columns makes median/median_for_intervals raise ValueError "
-    "(as_strided): modelled (None) and compared; the theorems are stated for filter_size <= rows + 1, cols + 1",
+    "an image smaller than filter_size is returned untouched by median/median_for_intervals (after the fix: commit; as "
+    "found, fewer than filter_size - 1 rows or columns raised ValueError): modelled, compared, covered by the theorems",
+    "bilateral with an even window width win (e.g. sigma_space = 1 -> 4): the code centres the window on index win/2, so "
+    "it reaches win/2 pixels up/left and win/2 - 1 down/right; 'closer to the edge than the radius' is read as 'the "
+    "window does not fit in the image' (identical for odd widths)",
 ]
 TRUSTED = ["Gen/Constants.v produced by translator/gen_constants.py (ast pattern np.array_split(x, np.arange(B, n, B), axis); "
            "pandora.constants by import)"]
@@ -544,7 +547,7 @@ def gen_cases(rng, quick):
             w = rng.choice([1, 3, 3, 5]) if quick else w
         cases.append({"filter": "median", "ny": ny, "nx": nx, "w": w, "seed": rng.randrange(1 << 30),
                       "inv": rng.choice([0.0, 0.2, 0.2, 0.2, 0.6, 0.6]) if i % 12 else 1.0, "smooth": rng.random() < 0.5})
-    for _ in range(6 if quick else 40):  # tiny images, including the ValueError branch
+    for _ in range(6 if quick else 40):  # tiny images, including images smaller than the window
         cases.append({"filter": "median", "ny": rng.choice([1, 2, 3, 4, 6]), "nx": rng.choice([1, 2, 3, 5, 8]),
                       "w": rng.choice([3, 5, 7]), "seed": rng.randrange(1 << 30), "inv": 0.2, "smooth": False})
     n_bil = 40 if quick else 300
